@@ -12,7 +12,8 @@ MANIFEST = {
          "uv__stream_close (descriptor conservation as multisets, FIFO, EAGAIN iff nothing pending, POLLIN pause/re-arm, "
          "pending_count exact, 8-slot growth and memmove index bounds), of uv__tcp_connect/uv_pipe_connect2/"
          "uv__stream_connect/uv__stream_destroy (connect callback exactly once, status) and of uv__check_before_write "
-         "(send-handle refusal for uv_write2 and uv_try_write2); tied to the working tree by running model and "
+         "(send-handle refusal for uv_write2 and uv_try_write2) and of the uv_write2 queue + uv__write attempts (the descriptor "
+         "rides on exactly one successful syscall of its request, whatever the short transfers); tied to the working tree by running model and "
          "implementation on the same op sequences (unit harness with fake descriptors; real sockets in the simulator) "
          "and by monitors that evaluate the property text on the implementation's log.",
  "note": "Trusted: Lean kernel; the flattening of connection_cb into ioBegin/ops/ioEnd; accept4 interposition; "
@@ -257,7 +258,7 @@ def run(ctx):
                     "clang/ASan/UBSan"]
     ctx.assumptions += ["descriptor identities are unique per open file description (kernel never hands the same connection out twice)",
                         "SCM_RIGHTS delivery order and SO_ERROR semantics of the kernel (inputs of the model)"]
-    proofs_ok = ctx.require_lean(["UvModel.Props.C07", "UvModel.Props.C07Connect"])
+    proofs_ok = ctx.require_lean(["UvModel.Props.C07", "UvModel.Props.C07Connect", "UvModel.Props.C07Send"])
     uexe = ctx.harness("c07_unit", ["harness/c07_unit.c"], link_lib=True)
     sexe = ctx.harness("c07_sim", ["harness/c07_sim.c"], link_lib=True)
     if ctx.replay:
